@@ -15,6 +15,8 @@ import (
 	"github.com/jamespfennell/gtfs/extensions/nyctalerts"
 	"github.com/jamespfennell/gtfs/extensions/nycttrips"
 	"github.com/jamespfennell/gtfs/journal"
+	gtfsrt "github.com/jamespfennell/gtfs/proto"
+	"google.golang.org/protobuf/proto"
 	"pgregory.net/rapid"
 
 	"verifharness/rgen"
@@ -334,6 +336,42 @@ func mutateBytes(t *rapid.T, b []byte) []byte {
 	return out
 }
 
+// partialBytes encodes m with some fields that the schema marks "required" left out (entity id, header, version, the trip of a
+// trip update, position coordinates, translation text, stop time update inside ...): legal wire bytes that a strict decoder
+// rejects and a lenient one lets through to code that may take the field for granted.
+func partialBytes(t *rapid.T, m *rgen.Msg) []byte {
+	fm := m.Proto()
+	drop := func(l string) bool { return rapid.IntRange(0, 2).Draw(t, l) == 0 }
+	if drop("header") {
+		fm.Header = nil
+	} else if drop("version") {
+		fm.Header.GtfsRealtimeVersion = nil
+	}
+	for _, e := range fm.Entity {
+		if drop("entityID") {
+			e.Id = nil
+		}
+		if e.TripUpdate != nil && drop("tuTrip") {
+			e.TripUpdate.Trip = nil
+		}
+		if e.Vehicle != nil && e.Vehicle.Position != nil && drop("lat") {
+			e.Vehicle.Position.Latitude = nil
+		}
+		if e.Alert != nil {
+			for _, ts := range []*gtfsrt.TranslatedString{e.Alert.HeaderText, e.Alert.DescriptionText, e.Alert.Url} {
+				if ts != nil && len(ts.Translation) > 0 && drop("text") {
+					ts.Translation[0].Text = nil
+				}
+			}
+		}
+	}
+	b, err := proto.MarshalOptions{AllowPartial: true, Deterministic: true}.Marshal(fm)
+	if err != nil {
+		return m.Marshal()
+	}
+	return b
+}
+
 func TestC05Realtime(t *testing.T) {
 	rapid.Check(t, func(t *rapid.T) {
 		c := CaseC05RT{Ext: rapid.IntRange(0, 28).Draw(t, "ext"), Zone: rapid.SampledFrom(c05Zones).Draw(t, "zone")}
@@ -341,6 +379,8 @@ func TestC05Realtime(t *testing.T) {
 		for i := 0; i < n; i++ {
 			if rapid.IntRange(0, 5).Draw(t, "raw") == 0 {
 				c.Feeds = append(c.Feeds, rapid.SliceOfN(rapid.Byte(), 0, 60).Draw(t, "rawBytes"))
+			} else if rapid.IntRange(0, 3).Draw(t, "partial") == 0 {
+				c.Feeds = append(c.Feeds, partialBytes(t, genHostileMsg(t)))
 			} else {
 				c.Feeds = append(c.Feeds, mutateBytes(t, genHostileMsg(t).Marshal()))
 			}
